@@ -8,7 +8,7 @@ LEVEL = "exploration"
 def run(c):
     builds = [("std-rel", 0), ("std-rel", 1), ("nosimd-rel", 0)] + ([("std-dbg", 0), ("std-rel", 2), ("std-rel", 4), ("nostd-sse2", 0), ("nostd-avx2", 0)] if c.thorough else [])
     digest_common.run_digests(c, "blake", "TraceBlake", "VecBlake", builds, pin=(["Blake224", "Blake256", "Blake384", "Blake512"], set()))
-    c.cov["rule"] = ("one-shot digests of Blake224/256/384/512 for message lengths 0..2*block+17 (all in thorough; in quick all lengths around the 55/56 and 111/112 one-vs-two final "
+    c.cov["rule"] = ("one-shot digests of Blake224/256/384/512 for message lengths 0..2*block+17 (0..4*block+17, three passes with rotating content kinds in thorough; in quick all lengths around the 55/56 and 111/112 one-vs-two final "
                      "block boundaries, block multiples, plus a rotating residue subset) with position-pattern / constant / random content, and longer random messages, on the "
                      "AVX2, forced-SSE2 and portable backends; TLC recomputes each digest with Blake.tla (G, sigma, pi constants, IVs, counter excluding padding and zero for a "
                      "padding-only block, 10*1 padding with marker bit). Blake.tla is pinned by the submission vectors (VecBlake.tla) and the repository's published KAT file.")
